@@ -25,7 +25,7 @@ from kopf._core.actions import application
 from kopf._core.reactor import processing, queueing
 
 logging.disable(logging.CRITICAL)
-ENCODED = [queueing.worker, queueing.watcher, processing.process_resource_causes, processing.process_resource_event,
+ENCODED = [queueing.worker, queueing.watcher, application.patch_and_check, processing.process_resource_causes, processing.process_resource_event,
            application.apply, aiotime.sleep]
 META = {
     'bounds': 'H1: 3 events of one object; per event a version in {stale, echo of patch 1, echo of patch 2}; per processing a returned '
@@ -234,6 +234,53 @@ def h_step(delta: int, has_ct: bool, has_pressure: bool, pressure_at: int, remai
     return vkopf.verdict(ok)
 
 
+def h_own_write_version(d: int, wake: bool, wake_at: int, second_fails: bool) -> bool:
+    """
+    pre: d >= 0 and wake_at >= 0
+    post: _ == True
+    """
+    vkopf.begin_path()
+    # The worker can only wait for the echo of a write whose version the processor reports back: every processing cycle
+    # must return the resourceVersion of the LAST write it made (incl. the dummy touch after a slept delay).
+    w = World(base_body(), tmode='symbolic')
+    from vkopf.loop import configure_storage
+    configure_storage(w.settings, 'status')       # records as plain mappings: the symbolic timestamps survive (no JSON text)
+    loop = w.loop
+    calls = []
+
+    @kopf.on.create(PLURAL, id='c', registry=w.registry)
+    async def c(retry, **_):
+        calls.append(retry)
+        if retry == 0 or (second_fails and retry == 1):
+            raise kopf.TemporaryError('later', delay=d)
+
+    async def main():
+        results = []
+        pressure = asyncio.Event()
+        for i in range(3):
+            if w.server.obj is None:
+                break
+            before = len(w.server.requests)
+            if wake and i == 1:
+                loop.call_later(wake_at, pressure.set)
+            rv = await w.process('ADDED' if i == 0 else 'MODIFIED', stream_pressure=pressure)
+            made = [r for r in w.server.requests[before:] if r['result'] == 200]
+            results.append((rv, made[-1]['rv'] if made else None))
+            pressure.clear()
+        await cancel_all_others()
+        return results
+    results = w.run(main())
+    ok = True
+    for rv, last in results:
+        if last is not None:
+            vkopf.witness('wrote')
+            if rv != str(last):
+                ok = False
+        elif rv is not None:
+            ok = False
+    return vkopf.verdict(ok)
+
+
 def lemma(cell=None):
     """H3: the composition lemma, discharged by z3 (engine 'smt')."""
     import time
@@ -271,5 +318,6 @@ def obligations():
                                          'has_pressure': has_pressure}}, tiers=('quick',), timeout=900, path_timeout=200))
     obs.append(Ob('h_step', {}, tiers=('quick', 'thorough'), timeout=600, path_timeout=200, twins=['change_ran', 'woken_skipped'], main=False))
     obs += split(Ob('h_step', {}, timeout=1500, path_timeout=200, tiers=('thorough',)), remaining=B, deleting=B, has_ct=B, handled=B, has_pressure=B)
+    obs.append(Ob('h_own_write_version', {}, timeout=900, path_timeout=200, twins=['wrote']))
     obs.append(Ob('lemma', {}, engine='smt', timeout=60))
     return obs
